@@ -226,9 +226,25 @@ class ndarray:
         self._mut('imul')
         return self
 
-    def astype(self, dt, copy=True):
+    def astype(self, dt, copy=True, **kw):
         dt = dt if isinstance(dt, SDtype) else SDtype(dt.__name__)
+        if not copy and dt == self.dtype:
+            return self                       # numpy: no copy when nothing has to change - still the caller's memory
         return ndarray('lib', self.column, self.a, self.b, dt, self.width, False, self.rows_from, self.extra_dims)
+
+    # ---- read-only reductions / comparisons (values abstract: only ownership and mutation are tracked)
+    def min(self, *a, **k):
+        return 1.0
+
+    def max(self, *a, **k):
+        return 2.0
+
+    def __eq__(self, o):
+        if isinstance(o, (int, float)) and not isinstance(o, bool):
+            return Mask(self)
+        return NotImplemented
+
+    __hash__ = object.__hash__
 
     def copy(self):
         return ndarray('lib', self.column, self.a, self.b, self.dtype, self.width, False, self.rows_from, self.extra_dims)
@@ -384,17 +400,28 @@ class Mask:
     def __invert__(self):
         return Mask(self.of)
 
+    def __and__(self, o):
+        return Mask(self.of)
+
+    __or__ = __and__
+    __rand__ = __and__
+
     def any(self):
-        raise StubGap('truth value of a data-dependent mask')
+        if MASK_ORACLE[0] is None:
+            raise StubGap('truth value of a data-dependent mask')
+        return MASK_ORACLE[0]                 # arbitrary (a symbolic harness argument): the data are abstract
 
     all = any
+
+
+MASK_ORACLE = [None]
 
 
 def isfinite(x):
     return Mask(x)
 
 
-isnan = isinf = isfinite
+isnan = isinf = signbit = isfinite
 
 
 class floating(generic):
